@@ -260,6 +260,54 @@ theorem c09_pinned_tick_self_deadlock_witness :
     lockRun .lock 0 (step ⟨10, 3, true, none, none⟩ (init ⟨10, 3, true, none, none⟩) (.tick 1)).lock = false ∧
     callPublic pinnedTable .rlock 1 [] = .ret [] := by decide
 
+/-! ## Read-only accessors and the call interface -/
+
+/-- `is_active()` says ACTIVE exactly when the phase is ACTIVE; `is_operational()` says no exactly in the two dead
+    phases APOPTOTIC and TERMINATED. -/
+theorem c09_accessors_agree_with_phase (s : State) :
+    (isActive s = true ↔ s.phase = .active) ∧
+    (isOperational s = false ↔ (s.phase = .apoptotic ∨ s.phase = .terminated)) := by
+  obtain ⟨ph, len, errs, ops, ren, rsn, st0, la, now⟩ := s
+  cases ph <;> simp [isActive, isOperational]
+
+/-- A tick returns exactly what `is_active()` says afterwards, and a lifecycle that `is_operational()` denies never
+    ticks (False, nothing changes). -/
+theorem c09_tick_reports_is_active (cfg : Cfg) (s : State) (c : Nat) :
+    (step cfg s (.tick c)).ret = .bool (isActive (step cfg s (.tick c)).st) ∧
+    (isOperational s = false → (step cfg s (.tick c)).ret = .bool false ∧ (step cfg s (.tick c)).st = s) := by
+  obtain ⟨ph, len, errs, ops, ren, rsn, st0, la, now⟩ := s
+  cases ph <;> simp [step, tick, started, enterSenescence, isActive, isOperational] <;> (repeat' split) <;> simp_all
+
+/-- When `get_status().time_remaining` of an ACTIVE lifecycle has run down to zero, `check_timeouts` makes it SENESCENT
+    and reports False; and no time remaining is reported (None) exactly when no lifetime limit applies or the
+    lifecycle has no start time. -/
+theorem c09_time_remaining_zero_forces_senescence (cfg : Cfg) (s : State) (ha : s.phase = .active)
+    (h : timeRemaining cfg s = some 0) :
+    (step cfg s .timeouts).st.phase = .senescent ∧ (step cfg s .timeouts).ret = .bool false ∧
+    (step cfg s .timeouts).evs = [.change .active .senescent, .senescence .timeout] := by
+  obtain ⟨ph, len, errs, ops, ren, rsn, st0, la, now⟩ := s
+  obtain ⟨mo, et, ar, life, idle⟩ := cfg
+  simp only at ha; subst ha
+  cases life <;> cases st0 <;> simp [timeRemaining] at h
+  rename_i l t0
+  have hl : l ≤ now - t0 := by omega
+  simp [step, checkTimeouts, limitHit, enterSenescence, h.1, hl]
+
+/-- The call interface read from the signatures on this run: a bare `tick()` is a unit tick (cost 1), a bare `renew()`
+    restores the full length and resets the errors (amount None, reset_errors True), and the keyword names are
+    `cost`, `amount`, `reset_errors`, `reason`. -/
+theorem c09_call_defaults :
+    Gen.TelomereConsts.tickDefaultCost = some 1 ∧ Gen.TelomereConsts.renewDefaultAmount = some none ∧
+    Gen.TelomereConsts.renewDefaultReset = some true ∧
+    Gen.TelomereConsts.paramNames =
+      [("tick", ["cost"]), ("renew", ["amount", "reset_errors"]), ("trigger_apoptosis", ["reason"])] := by decide
+
+/-- the hypothesis of the time-remaining theorem is met: ACTIVE, lifetime of a quarter hour used up -/
+example : (run ⟨3, 2, true, some 900000000, none⟩ (init ⟨3, 2, true, some 900000000, none⟩) [.start, .adv 900000000]).phase = .active ∧
+    timeRemaining ⟨3, 2, true, some 900000000, none⟩
+      (run ⟨3, 2, true, some 900000000, none⟩ (init ⟨3, 2, true, some 900000000, none⟩) [.start, .adv 900000000]) = some 0 := by
+  decide
+
 /-! ## Several lifecycles alive at once, resets in between
 
 Lifecycles share nothing but the clock.  `World` holds any number of them (slot → configuration, state); a world
